@@ -124,6 +124,43 @@ theorem image_tables_read_only : Gen.Shape.imageTableUses = [
     "rmqr:Version.String: base := baseList[version]",
     "rmqr:Version.Width: base := baseList[version]"] := by decide
 
+/-- the package-level variables of the library are exactly the generated tables (plus the alphabet
+index built by `bitstream.init`): there is no pool, cache, memo table or counter in which state could
+survive from one call to the next.  Regenerated from the Go AST on every run: a new package-level
+variable breaks this obligation. -/
+theorem package_vars_pinned : Gen.Shape.packageVars = [".:baseList",
+      ".:capacityTable",
+      ".:encodedFormat",
+      ".:encodedVersion",
+      ".:maskList",
+      ".:usedList",
+      "internal/bitstream:alphabets",
+      "internal/bitstream:bitToAlphanumeric",
+      "internal/bitstream:decode",
+      "internal/bitstream:encode0",
+      "internal/bitstream:encode1",
+      "internal/bitstream:encode2",
+      "internal/bitstream:encode3",
+      "internal/bitstream:encode4",
+      "internal/reedsolomon/element:expTable",
+      "internal/reedsolomon/element:logTable",
+      "internal/reedsolomon:coders",
+      "microqr:baseList",
+      "microqr:capacityTable",
+      "microqr:encodedFormat",
+      "microqr:formatTable",
+      "microqr:maskList",
+      "microqr:rawFormatTable",
+      "microqr:usedList",
+      "rmqr:baseList",
+      "rmqr:capacityOrderArea",
+      "rmqr:capacityOrderHeight",
+      "rmqr:capacityOrderWidth",
+      "rmqr:capacityTable",
+      "rmqr:encodedVersion",
+      "rmqr:precomputedMask",
+      "rmqr:usedList"] := by decide
+
 /-! non-vacuity: a blank 21x21 bitmap is answered with an error and not modified (no ok result) -/
 example : (Model.QR.decodeBitmapFull (Image.new 0 0 21 21)).isErr = true := by decide +kernel
 
